@@ -70,6 +70,8 @@ type Fault struct {
 	Kind   string `json:"kind"` // none cut failread failwrite cancel
 	At     int    `json:"at"`   // byte offset (cut) / operation index (failread, failwrite) / gate index (cancel)
 	Silent bool   `json:"silent"`
+	// Stuck (with Silent): the peer has stopped reading as well - writes block until a deadline
+	Stuck bool `json:"stuck"`
 }
 
 type Run struct {
@@ -257,7 +259,11 @@ func runOne(r Run) ([]vt.Ev, baseline) {
 				mu.Lock()
 				frozen = true
 				mu.Unlock()
-				sut.Freeze()
+				if r.Fault.Stuck {
+					sut.FreezeAll()
+				} else {
+					sut.Freeze()
+				}
 			}
 			cancel()
 		}
@@ -413,6 +419,7 @@ func main() {
 			for k := 1; k <= bl.gates; k++ {
 				emit(Run{h, side, Fault{Kind: "cancel", At: k}})
 				emit(Run{h, side, Fault{Kind: "cancel", At: k, Silent: true}})
+				emit(Run{h, side, Fault{Kind: "cancel", At: k, Silent: true, Stuck: true}})
 			}
 		}
 	}
